@@ -1,24 +1,87 @@
 /-
-  The d4 loader preserves the denotation of the graph built in phase 1 (top-level statements).
+  The d4 loader preserves the denotation of the graph built in phase 1: top-level statements.
 
-  Parts: LoadSem1 (semantics `evalG`/`sem`/`Model`), LoadSem2 (phase 5, `flattenGraph`),
-  LoadSem3 (phases 2, 3b), LoadSem4 (phase 4), LoadSem5/6 (phase 3), LoadSem7 (structural invariants of
-  phases 1, 2), LoadSem8 (composition).
+  Parts:
+    LoadSem1   semantics of graph nodes: `evalG`, `Acyclic`, fuel independence, `sem`, `Model`
+    LoadSem2   phase 5: `flattenGraph_root` (the DFS emits its root last; values in the flattened array)
+    LoadSem3   phases 2 / 3b: triangles, the new root (`addFree_sem`, `addVanished_sem`)
+    LoadSem4   phase 4: `balance_sem`, `smooth_sem`
+    LoadSem5/6 phase 3: `deleteChain_sem` (fuel `deleteFuel` suffices), `elimNode_res`, `eliminate_sem`
+    LoadSem7   structural invariants of phases 1 and 2 (literal table, predecessor lists)
+    LoadSem8   composition for a given acyclic final graph (`loadWith_denotation_of_acyclic`)
+    LoadSem9-13 acyclicity of the final graph from acyclicity of the phase-1 graph, with explicit ranks
+               (`loadGraph_acyclic`)
+
+  Hypotheses of the final theorem:
+    * `hnode`  the file declares a node (otherwise node 0 does not exist);
+    * `hnz`    no literal of the phase-1 graph is 0 (`litTrue σ 0 = false`: the "triangle" of variable 0 would
+               be false; d4 files end every literal list with 0, so 0 is not a literal);
+    * `hacyc`  the phase-1 graph is acyclic, witnessed by the rank `r`;
+    * `hok`    the loader does not raise its error flag.
+  It is *not* needed that the root survives the elimination: a removed root was false under every
+  assignment, and `flattenGraph` turns removed nodes into `.fls`.
 -/
-import DdnnfVerif.Proofs.LoadSem8
+import DdnnfVerif.Proofs.LoadSem13
 
 namespace Ddnnf.D4
 
-/-- `load` (sorted, identity hash order): the root of the loaded array has the denotation of the first
-node of the file, provided the flattened graph is acyclic. -/
-theorem load_preserves_denotation_of_acyclic (lines : List Line) (total : Nat)
+/-- executable form of `LitNZ` -/
+def litNZB (g : G) : Bool := g.kind.toList.all fun k => k != some (.lit 0)
+
+theorem litNZ_of_litNZB (g : G) (h : litNZB g = true) : LitNZ g := by
+  intro x l hk hl
+  subst hl
+  have hx : x < g.kind.size := kindOf_lt hk
+  have hm : g.kind[x] ∈ g.kind.toList := Array.mem_toList_iff.2 (Array.getElem_mem hx)
+  have := List.all_eq_true.1 h _ hm
+  have hk' : g.kind[x] = some (.lit 0) := by
+    have : g.kind.getD x none = some (.lit 0) := hk
+    rw [Array.getD_eq_getD_getElem?, Array.getElem?_eq_getElem hx] at this
+    exact this
+  rw [hk'] at this
+  simp at this
+
+/-- The loader (any hash iteration order that only permutes/filters its input, sorted or not) preserves
+the denotation: the root of the loaded array has the value of the file's first node in the graph built
+in phase 1. -/
+theorem loadWith_preserves_denotation (sorted : Bool) (h : List Nat → List Nat)
+    (hh : ∀ xs f, f ∈ h xs → f ∈ xs) (lines : List Line) (total : Nat)
     (hnode : ∃ k, Line.node k ∈ lines)
     (hnz : LitNZ (lines.foldl stepLine { total := total }).g)
     (r : Nat → Nat) (hacyc : Acyclic (lines.foldl stepLine { total := total }).g r)
-    (r4 : Nat → Nat) (hacyc4 : Acyclic (loadGraph true id lines total).1 r4)
+    (hok : (loadWith sorted h lines total).2.2 = false) (σ : Assignment) :
+    eval σ (loadWith sorted h lines total).2.1 (rootIx (loadWith sorted h lines total).2.1) =
+      sem σ (lines.foldl stepLine { total := total }).g r 0 := by
+  obtain ⟨r4, hacyc4⟩ := loadGraph_acyclic sorted h lines total hnode r hacyc
+  exact loadWith_sem_of_acyclic sorted h hh lines total hnode hnz r hacyc r4 hacyc4 hok σ
+
+/-- **The d4 loader preserves the denotation of the graph built in phase 1.** -/
+theorem load_preserves_denotation (lines : List Line) (total : Nat)
+    (hnode : ∃ k, Line.node k ∈ lines)
+    (hnz : LitNZ (lines.foldl stepLine { total := total }).g)
+    (r : Nat → Nat) (hacyc : Acyclic (lines.foldl stepLine { total := total }).g r)
     (hok : (load lines total).2.2 = false) (σ : Assignment) :
     eval σ (load lines total).2.1 (rootIx (load lines total).2.1) =
       sem σ (lines.foldl stepLine { total := total }).g r 0 :=
-  loadWith_sem_of_acyclic true id (fun _ _ h => h) lines total hnode hnz r hacyc r4 hacyc4 hok σ
+  loadWith_preserves_denotation true id (fun _ _ h => h) lines total hnode hnz r hacyc hok σ
+
+/-- the same for an arbitrary model of the phase-1 graph instead of `sem` -/
+theorem load_preserves_model (lines : List Line) (total : Nat)
+    (hnode : ∃ k, Line.node k ∈ lines)
+    (hnz : LitNZ (lines.foldl stepLine { total := total }).g)
+    (r : Nat → Nat) (hacyc : Acyclic (lines.foldl stepLine { total := total }).g r)
+    (hok : (load lines total).2.2 = false) (σ : Assignment) (v : Nat → Bool)
+    (hm : Model σ (lines.foldl stepLine { total := total }).g v) :
+    eval σ (load lines total).2.1 (rootIx (load lines total).2.1) = v 0 := by
+  rw [hm.eq_sem r hacyc 0]
+  exact load_preserves_denotation lines total hnode hnz r hacyc hok σ
+
+/-- C01 from phase-1 acyclicity alone: children precede parents in the loaded array -/
+theorem load_topo_of_phase1 (sorted : Bool) (h : List Nat → List Nat) (lines : List Line) (total : Nat)
+    (hnode : ∃ k, Line.node k ∈ lines) (r : Nat → Nat)
+    (hacyc : Acyclic (lines.foldl stepLine { total := total }).g r) :
+    Topo (loadWith sorted h lines total).2.1 := by
+  obtain ⟨r4, hacyc4⟩ := loadGraph_acyclic sorted h lines total hnode r hacyc
+  exact load_topo sorted h lines total r4 hacyc4
 
 end Ddnnf.D4
